@@ -104,6 +104,11 @@ fn offsets(data: &[u8], rng: &mut Rng, effort: u64) -> Vec<usize> {
     v
 }
 
+fn rbytes(rng: &mut Rng, lo: u64, hi: u64) -> Vec<u8> {
+    let n = rng.range(lo, hi) as usize;
+    rng.bytes(n)
+}
+
 fn random_script(rng: &mut Rng, len: usize, with_intr: bool) -> Vec<Deliver> {
     let mut s = Vec::new();
     let style = rng.below(4);
@@ -415,6 +420,245 @@ fn run_rx(c: &Case, buffered: bool) -> Obs {
     o
 }
 
+
+fn io_kind<X>(r: &std::io::Result<X>) -> Option<String> {
+    r.as_ref().err().map(|e| format!("Err:{:?}", e.kind()))
+}
+
+/// bam::io::Reader::from(src).read_record: read_exact_or_eof(4) / read_exact(n) / validate
+fn run_roe(c: &Case) -> Obs {
+    let data = c.b(0);
+    let script = parse_script(&c.args[1]);
+    let run1 = |script: Vec<Deliver>| -> String {
+        let mut r = noodles_bam::io::Reader::from(ScriptedReader::new(data.clone(), script));
+        let mut rec = noodles_bam::Record::default();
+        let mut out = Vec::new();
+        for _ in 0..8 {
+            match r.read_record(&mut rec) {
+                Ok(n) => {
+                    out.push(format!("Ok:{n}"));
+                    if n == 0 {
+                        break;
+                    }
+                }
+                Err(e) => {
+                    out.push(format!("Err:{:?}", e.kind()));
+                    break;
+                }
+            }
+        }
+        format!("{}|{}", out.join(","), r.get_ref().pos)
+    };
+    let obs = run1(script);
+    let plain = run1(Vec::new());
+    if obs != plain {
+        return Obs::fail(obs, "bam-record-schedule-dependent", format!("plain delivery gives {plain}"));
+    }
+    Obs::ok(obs, data.len() >= 4)
+}
+
+/// bgzf::io::Reader::new(src).read(): read_frame_into + header check
+fn run_frame(c: &Case) -> Obs {
+    let data = c.b(0);
+    let script = parse_script(&c.args[1]);
+    let run1 = |script: Vec<Deliver>| -> String {
+        let mut r = noodles_bgzf::io::Reader::new(ScriptedReader::new(data.clone(), script));
+        let mut buf = [0u8; 16];
+        let res = r.read(&mut buf);
+        let rs = match &res {
+            Ok(0) => "Eof".to_string(),
+            Ok(_) => "Data".to_string(),
+            Err(e) => format!("Err:{:?}", e.kind()),
+        };
+        format!("{rs}|{}", r.get_ref().pos)
+    };
+    let obs = run1(script);
+    let plain = run1(Vec::new());
+    if obs != plain {
+        return Obs::fail(obs, "bgzf-frame-schedule-dependent", format!("plain delivery gives {plain}"));
+    }
+    Obs::ok(obs, data.len() >= 18)
+}
+
+fn bpos(r: &BufReader<ScriptedReader>) -> usize {
+    r.get_ref().pos - r.buffer().len()
+}
+
+/// BufRead::read_until(b'\n') to the end
+fn run_ru(c: &Case) -> Obs {
+    use std::io::BufRead;
+    let data = c.b(0);
+    let script = parse_script(&c.args[1]);
+    let cap = c.u(2) as usize;
+    let mut r = BufReader::with_capacity(cap, ScriptedReader::new(data.clone(), script));
+    let mut lines = Vec::new();
+    for _ in 0..64 {
+        let mut l = Vec::new();
+        match r.read_until(b'\n', &mut l) {
+            Ok(0) => break,
+            Ok(_) => lines.push(hex(&l)),
+            Err(e) => {
+                lines.push(format!("Err:{:?}", e.kind()));
+                break;
+            }
+        }
+    }
+    let obs = format!("{}|{}", lines.join(";"), bpos(&r));
+    // closed form: split_inclusive on LF
+    let exp: Vec<String> = data.split_inclusive(|&b| b == b'\n').take(64).map(hex).collect();
+    let consumed: usize = data.split_inclusive(|&b| b == b'\n').take(64).map(|l| l.len()).sum();
+    let exp = format!("{}|{consumed}", exp.join(";"));
+    if obs != exp {
+        return Obs::fail(obs, "read-until-schedule-dependent", format!("expected {exp}"));
+    }
+    Obs::ok(obs, data.contains(&b'\n'))
+}
+
+/// gff::io::Reader::read_line
+fn run_gffl(c: &Case) -> Obs {
+    let data = c.b(0);
+    let cap = c.u(2) as usize;
+    let run1 = |script: Vec<Deliver>, cap: usize| -> String {
+        let mut r = noodles_gff::io::Reader::new(BufReader::with_capacity(cap, ScriptedReader::new(data.clone(), script)));
+        let mut line = noodles_gff::Line::default();
+        let mut out = Vec::new();
+        for _ in 0..64 {
+            match r.read_line(&mut line) {
+                Ok(0) => break,
+                Ok(n) => {
+                    let raw: &bstr::BStr = line.as_ref();
+                    out.push(format!("{n}:{}", hex(raw)));
+                }
+                Err(e) => {
+                    out.push(format!("Err:{:?}", e.kind()));
+                    break;
+                }
+            }
+        }
+        format!("{}|{}", out.join(";"), bpos(r.get_ref()))
+    };
+    let obs = run1(parse_script(&c.args[1]), cap);
+    let plain = run1(Vec::new(), 8192);
+    if obs != plain {
+        return Obs::fail(obs, "gff-line-schedule-dependent", format!("plain delivery gives {plain}"));
+    }
+    Obs::ok(obs, data.contains(&b'\n'))
+}
+
+fn seq_wellformed(data: &[u8]) -> bool {
+    // the side condition of fasta_scanner_chunk_indep, up to the first '>' at a line start
+    let mut bol = true;
+    for (i, &b) in data.iter().enumerate() {
+        match b {
+            b'>' => return bol,
+            b'\r' => {
+                if i + 1 < data.len() && data[i + 1] != b'\n' {
+                    return false;
+                }
+                bol = false;
+            }
+            b'\n' => bol = true,
+            _ => bol = false,
+        }
+    }
+    true
+}
+
+/// fasta sequence::Reader at its BufRead interface: fill_buf / consume(whole slice)
+fn run_fseq(c: &Case) -> Obs {
+    use std::io::BufRead;
+    let data = c.b(0);
+    let cap = c.u(1) as usize;
+    let script = parse_script(&c.args[2]);
+    let has_intr = script.iter().any(|e| *e == Deliver::Interrupted);
+    let mut r = noodles_fasta::io::Reader::new(BufReader::with_capacity(cap, ScriptedReader::new(data.clone(), script)));
+    let mut pieces = Vec::new();
+    let mut all = Vec::new();
+    let mut status = "Ok".to_string();
+    {
+        let mut sr = r.sequence_reader();
+        for _ in 0..4096 {
+            let res = sr.fill_buf().map(|b| b.to_vec());
+            match res {
+                Ok(p) if p.is_empty() => break,
+                Ok(p) => {
+                    pieces.push(hex(&p));
+                    all.extend_from_slice(&p);
+                    sr.consume(p.len());
+                }
+                Err(e) => {
+                    status = format!("Err:{:?}", e.kind());
+                    break;
+                }
+            }
+        }
+    }
+    let obs = format!("{}|{status}|{}", pieces.join(";"), bpos(r.get_ref()));
+    // oracle: on well-formed text without interrupts the concatenation is the closed form
+    if !has_intr {
+        let wf = seq_wellformed(&data);
+        let end = {
+            let mut bol = true;
+            let mut e = data.len();
+            for (i, &b) in data.iter().enumerate() {
+                if b == b'>' && (bol || wf) {
+                    e = i;
+                    break;
+                }
+                bol = b == b'\n';
+            }
+            e
+        };
+        let exp: Vec<u8> = data[..end].iter().copied().filter(|&b| b != b'\r' && b != b'\n').collect();
+        // read_sequence (read_to_end over the same reader) must agree with the pieces
+        let mut r2 = noodles_fasta::io::Reader::new(BufReader::with_capacity(cap, ScriptedReader::new(data.clone(), parse_script(&c.args[2]))));
+        let mut whole = Vec::new();
+        let res2 = r2.read_sequence(&mut whole);
+        if io_kind(&res2).is_some() || whole != all {
+            // read_to_end may consume slices partially; only on well-formed text must it agree
+            if wf {
+                return Obs::fail(obs, "fasta-read-sequence-differs-from-pieces", format!("read_sequence={} {:?}", hex(&whole), io_kind(&res2)));
+            }
+        }
+        if wf && all != exp {
+            return Obs::fail(obs, "fasta-chunking-dependent", format!("expected {}", hex(&exp)));
+        }
+        if !wf && all != exp {
+            let tag = fasta_class(&data).unwrap_or("fasta-chunking-dependent");
+            return Obs::fail(obs, tag, format!("single-window result would be different: got {} ", hex(&all)));
+        }
+    }
+    Obs::ok(obs, data.len() >= 2)
+}
+
+/// fasta Indexer::index_record on ">x\n" + one sequence line
+fn run_fidx(c: &Case) -> Obs {
+    let data = c.b(0);
+    let cap = c.u(1) as usize;
+    let run1 = |script: Vec<Deliver>, cap: usize| -> String {
+        let mut ix = noodles_fasta::io::Indexer::new(BufReader::with_capacity(cap, ScriptedReader::new(data.clone(), script)));
+        match ix.index_record() {
+            Ok(Some(rec)) => format!("{},{}", rec.line_width(), rec.line_bases()),
+            Ok(None) => "None".into(),
+            Err(e) => {
+                let e: std::io::Error = e.into();
+                if e.to_string().starts_with("empty sequence") {
+                    "Err:EmptySequence".into()
+                } else {
+                    format!("Err:{:?}", e.kind())
+                }
+            }
+        }
+    };
+    let obs = run1(parse_script(&c.args[2]), cap);
+    let plain = run1(Vec::new(), 1 << 16);
+    if obs != plain {
+        let tag = fasta_class(&data).unwrap_or("fastaidx-chunking-dependent");
+        return Obs::fail(obs, tag, format!("one-window result {plain}"));
+    }
+    Obs::ok(obs, data.len() >= 5)
+}
+
 fn generate(rng: &mut Rng, tier: &str, w: &mut CaseWriter) {
     let thorough = tier == "thorough";
     let effort = if thorough { 1 } else { 0 };
@@ -509,6 +753,136 @@ fn generate(rng: &mut Rng, tier: &str, w: &mut CaseWriter) {
             w.push("rxb", vec![hex(&data), fmt_script(&script), cap.to_string(), sizes.join(",")]);
         }
     }
+
+    // ---- L2: bam record framing (read_exact_or_eof three-way outcome, read_exact, validate)
+    let n_roe = if thorough { 2000 } else { 250 };
+    for _ in 0..n_roe {
+        let mut data = Vec::new();
+        for _ in 0..rng.below(3) {
+            // a structurally valid record body
+            let name_len = rng.range(1, 6) as usize;
+            let ncig = rng.below(3) as usize;
+            let nb = rng.below(9) as usize;
+            let mut body = vec![0u8; 32];
+            body[8] = name_len as u8;
+            body[12..14].copy_from_slice(&(ncig as u16).to_le_bytes());
+            body[16..20].copy_from_slice(&(nb as u32).to_le_bytes());
+            body.extend(rng.bytes(name_len + 4 * ncig + nb.div_ceil(2) + nb));
+            if rng.chance(1, 6) {
+                let k = rng.below(body.len() as u64 + 1) as usize;
+                body.truncate(k); // declared sizes no longer fit: validate() fails
+            }
+            if rng.chance(1, 8) {
+                body.extend(rbytes(rng, 0, 4)); // trailing bytes are allowed
+            }
+            data.extend((body.len() as u32).to_le_bytes());
+            data.extend(body);
+        }
+        match rng.below(6) {
+            0 => data.extend(rbytes(rng, 1, 3)), // partial length field
+            1 => {
+                // length field promising more than is there
+                let have = rng.below(40) as usize;
+                data.extend(((have + rng.range(1, 30) as usize) as u32).to_le_bytes());
+                data.extend(rng.bytes(have));
+            }
+            2 => data.extend(0u32.to_le_bytes()),
+            _ => {}
+        }
+        let script = random_script(rng, data.len(), true);
+        w.push("roe", vec![hex(&data), fmt_script(&script)]);
+    }
+    // ---- L2: bgzf frame reading
+    const EOFB: [u8; 28] = [
+        0x1f, 0x8b, 0x08, 0x04, 0, 0, 0, 0, 0, 0xff, 0x06, 0, 0x42, 0x43, 0x02, 0, 0x1b, 0, 0x03, 0, 0, 0, 0, 0, 0, 0, 0, 0,
+    ];
+    let n_fr = if thorough { 2000 } else { 250 };
+    for _ in 0..n_fr {
+        let mut data = Vec::new();
+        for _ in 0..rng.below(3) {
+            data.extend(EOFB);
+        }
+        match rng.below(6) {
+            0 => {}
+            1 => {
+                let k = rng.range(1, 17) as usize;
+                data.extend(&EOFB[..k]); // partial header = end of input
+            }
+            2 => {
+                let mut h = EOFB[..18].to_vec();
+                h[16..18].copy_from_slice(&(rng.below(25) as u16).to_le_bytes()); // frame too small
+                data.extend(h);
+                data.extend(rbytes(rng, 0, 9));
+            }
+            k => {
+                // a frame whose header is not a BGZF header (first byte never 0x1f)
+                let bsize = rng.range(25, 90) as usize; // total = bsize + 1 >= 26
+                let mut f = rng.bytes(bsize + 1);
+                f[0] = 0x20 | (f[0] & 0x0f);
+                f[16..18].copy_from_slice(&(bsize as u16).to_le_bytes());
+                if k == 3 {
+                    let cut = rng.range(18, bsize as u64) as usize;
+                    f.truncate(cut); // body cut short
+                }
+                data.extend(f);
+            }
+        }
+        let script = random_script(rng, data.len(), true);
+        w.push("frame", vec![hex(&data), fmt_script(&script)]);
+    }
+    // ---- L2: read_until, gff read_line
+    let n_ln = if thorough { 3000 } else { 300 };
+    for i in 0..n_ln {
+        let len = rng.below(60) as usize;
+        let data: Vec<u8> = (0..len)
+            .map(|_| match rng.below(8) {
+                0 => b'\n',
+                1 => b'\r',
+                2 => *rng.pick(&[b' ', b'\t', 0x0c]),
+                _ => rng.range(33, 126) as u8,
+            })
+            .collect();
+        let script = random_script(rng, len, true);
+        let cap = *rng.pick(&[1usize, 2, 3, 5, 7, 16, 64]);
+        let kind = if i % 2 == 0 { "ru" } else { "gffl" };
+        w.push(kind, vec![hex(&data), fmt_script(&script), cap.to_string()]);
+    }
+    // ---- L2: fasta scanners (well-formed text, and the bare-CR / mid-line '>' classes)
+    let n_fs = if thorough { 4000 } else { 400 };
+    for i in 0..n_fs {
+        let style = rng.below(10);
+        let len = rng.below(40) as usize;
+        let mut data: Vec<u8> = Vec::new();
+        while data.len() < len {
+            match rng.below(10) {
+                0 | 1 => data.extend(b"\n"),
+                2 => data.extend(b"\r\n"),
+                3 if style == 0 => data.push(b'\r'), // bare CR
+                4 if style == 1 => data.push(b'>'),  // '>' anywhere
+                5 if rng.chance(1, 4) && data.last().is_none_or(|&b| b == b'\n') => data.extend(b">n\n"),
+                _ => data.push(*rng.pick(b"ACGTN")),
+            }
+        }
+        if rng.chance(1, 8) {
+            data.push(b'\r');
+        }
+        let with_intr = rng.chance(1, 5);
+        let script = random_script(rng, data.len(), with_intr);
+        let cap = *rng.pick(&[1usize, 2, 3, 5, 7, 16, 64]);
+        if i % 3 != 2 {
+            w.push("fseq", vec![hex(&data), cap.to_string(), fmt_script(&script)]);
+        } else {
+            // ">x\n" + one line
+            let line: Vec<u8> = data.iter().copied().filter(|&b| b != b'\n' && b != b'>').collect();
+            let mut f = b">x\n".to_vec();
+            f.extend(line);
+            if rng.chance(3, 4) {
+                f.push(b'\n');
+            }
+            let script = random_script(rng, f.len(), false);
+            w.push("fidx", vec![hex(&f), cap.to_string(), fmt_script(&script)]);
+        }
+    }
 }
 
 fn run(c: &Case) -> Obs {
@@ -517,6 +891,12 @@ fn run(c: &Case) -> Obs {
         "dlvi" => run_dlv(c, true),
         "rx" => run_rx(c, false),
         "rxb" => run_rx(c, true),
+        "roe" => run_roe(c),
+        "frame" => run_frame(c),
+        "ru" => run_ru(c),
+        "gffl" => run_gffl(c),
+        "fseq" => run_fseq(c),
+        "fidx" => run_fidx(c),
         _ => Obs::ok("-", false),
     }
 }
